@@ -111,7 +111,8 @@ def register(reg):
                           "xr(lsum(self.candidate[k].rewards) / len(self.candidate[k].rewards))) for k in range(len(self.candidate)))", "C07")])
     loop("StroquOOL.get_last_point", 0, props="C07",
          invariants=[("none", "implies(max_node is None, _k == 0 and max_value == -inf)"),
-                     ("max", "implies(max_node is not None, max_node in self.candidate and max_node.mean_reward == max_value)"),
+                     ("max", "implies(max_node is not None, max_node in self.candidate and max_node.mean_reward == max_value "
+                             "and implies(max_node.visited_times > 0, max_node.mean_reward == xr(lsum(max_node.rewards) / len(max_node.rewards))))"),
                      ("seen", "all(self.candidate[q].mean_reward <= max_value for q in range(_k))"),
                      ("means", "all(implies(self.candidate[q].visited_times > 0, self.candidate[q].mean_reward == "
                                "xr(lsum(self.candidate[q].rewards) / len(self.candidate[q].rewards))) for q in range(_k))")])
